@@ -272,14 +272,76 @@ theorem linearizeWith_not_unimplemented (m : Model α) (b : BoundsMap α) (d : L
       exact EK.bind EK.get (fun _ => EK.pure _)
     exact hprog _ _ hrun rfl
 
+/-! ### the up-front collapse check (rooc 81a4b76, e35561f) lowers SIMPLIFIED nodes only -/
+
+section check
+attribute [local irreducible] EK
+
+theorem ek_collapseNode (e : Exp α) : EK NotUnimpl (collapseNode e) := by
+  unfold collapseNode
+  refine EK.bind EK.get (fun s => ?_)
+  split
+  · exact EK.pure _
+  · refine EK.bind (linExp_ek.1 _ _ (simplify_noOp e)) (fun c => ?_)
+    refine EK.bind EK.get (fun s2 => ?_)
+    split
+    · apply EK.fail; intro h; cases h
+    · exact EK.pure _
+
+theorem ek_collapseCheck :
+    (∀ e : Exp α, EK NotUnimpl (collapseCheck e)) ∧ (∀ es : List (Exp α), EK NotUnimpl (collapseCheckList es)) := by
+  apply collapseCheck.mutual_induct
+    (motive_1 := fun e => EK NotUnimpl (collapseCheck e))
+    (motive_2 := fun es => EK NotUnimpl (collapseCheckList es))
+  all_goals intros
+  all_goals first
+    | (rw [collapseCheck]; exact EK.pure _)
+    | (rw [collapseCheck]; assumption)
+    | (rw [collapseCheck]; exact EK.bind (by assumption) (fun _ => ek_collapseNode _))
+    | (rw [collapseCheck]; exact EK.bind (by assumption) (fun _ => by assumption))
+    | (rw [collapseCheckList]; exact EK.pure _)
+    | (rw [collapseCheckList]; exact EK.bind (by assumption) (fun _ => by assumption))
+    | (rename_i op l r ihl ihr
+       cases op <;>
+         (rw [collapseCheck]
+          · exact EK.bind ihl (fun _ => EK.bind ihr (fun _ => by first | exact ek_collapseNode _ | exact EK.pure _))
+          all_goals (intro hh; cases hh)))
+
+theorem ek_collapseCheckConstraints : ∀ cs : List (Constraint α), EK NotUnimpl (collapseCheckConstraints cs)
+  | [] => by rw [collapseCheckConstraints]; exact EK.pure _
+  | c :: cs => by
+    rw [collapseCheckConstraints]
+    refine EK.bind (ek_collapseCheck.1 _) (fun _ => ?_)
+    split
+    · exact EK.bind (ek_collapseCheck.1 _) (fun _ => ek_collapseCheckConstraints cs)
+    · exact ek_collapseCheckConstraints cs
+
+theorem ek_collapseCheckAll (m : Model α) : EK NotUnimpl (collapseCheckAll m) := by
+  unfold collapseCheckAll
+  exact EK.bind (ek_collapseCheck.1 _) (fun _ => ek_collapseCheckConstraints _)
+
+theorem collapseCheckAll_not_unimplemented (m : Model α) (s : St α) :
+    collapseCheckAll m s ≠ .error .unimplemented := by
+  intro h
+  have := ek_collapseCheckAll m
+  unfold EK at this
+  exact this s _ h rfl
+
+end check
+
 /-- … and neither does the whole compiler: `UnimplementedExpression` is dead behind `Linearizer::linearize`. -/
 theorem compile_not_unimplemented (m : Model α) (tol : α) (maxSteps : Nat) :
     Compile.linearize m tol maxSteps ≠ .error .unimplemented := by
   intro h
   unfold Compile.linearize at h
   split at h
-  · cases h
-  · exact linearizeWith_not_unimplemented _ _ _ h
+  · rename_i e hchk
+    injection h with h
+    subst h
+    exact collapseCheckAll_not_unimplemented m _ hchk
+  · split at h
+    · cases h
+    · exact linearizeWith_not_unimplemented _ _ _ h
 
 end Lin
 end Rooc
